@@ -368,13 +368,30 @@ pub fn item(i: usize, seed: u64, small: &[ResolvedType], stats: &mut SweepStats)
         return Ok(());
     }
     let depth = rng.below(4);
-    let ty = simcore::valgen::gen_type(&mut rng, depth);
+    // one random item in five is "correlated": the components of the value share their bytes
+    let correlated = rng.below(5) == 0;
+    let ty = if correlated {
+        let mut pool = [0u8; 32];
+        if rng.below(3) != 0 {
+            for x in pool.iter_mut() {
+                *x = rng.below(256) as u8;
+            }
+        }
+        simcore::valgen::set_pool(Some(pool));
+        ResolvedType::tuple([simcore::valgen::gen_type_correlated(&mut rng), simcore::valgen::gen_type_correlated(&mut rng)])
+    } else {
+        simcore::valgen::gen_type(&mut rng, depth)
+    };
     stats.types += 1;
-    type_roundtrip(&ty)?;
+    let mut res = type_roundtrip(&ty);
     for _ in 0..4 {
+        if res.is_err() {
+            break;
+        }
         let v = simcore::valgen::gen_value(&mut rng, &ty);
         stats.values += 1;
-        roundtrip(&ty, &v)?;
+        res = roundtrip(&ty, &v);
     }
-    Ok(())
+    simcore::valgen::set_pool(None);
+    res
 }
